@@ -101,6 +101,7 @@ def r1f_optional(repo, rep, closure):
                     % (f.qualname, what, name, '' if name in xonly else ' (or under another condition)'), f.loc(sub))
   # (ii) TBRMMScore: self.diag.<opt> under the class invariant "diag.x is not None"
   scls = repo.cls(SCORE)
+  SCORE_REPO[0] = repo
   inv3 = score_invariant3(scls)
   inv = bool(inv3)
   if inv3 is None:
@@ -338,13 +339,18 @@ def undecided_in_diag(f, ctx, node, name, xonly, sn, opt):
   return ''
 
 
+SCORE_REPO = [None]
+
+
 def score_invariant3(scls):
   """True: recognised guard; False: __post_init__ visibly has no rejection related to the control series; None: unknown."""
   if score_invariant(scls):
     return True
   f = scls.methods.get('__post_init__')
   if f is None:
-    return False
+    return None if au.class_delegations(None, scls) else False
+  if au.delegations(SCORE_REPO[0], f):
+    return None         # hands the object to code that is not followed: the rejection may live there
   mentions = any(isinstance(y, ast.Attribute) and y.attr in ('x', '_x') for y in ast.walk(f.node))
   raises = any(isinstance(y, ast.Raise) for y in ast.walk(f.node))
   calls_out = any(isinstance(y, ast.Call) and isinstance(y.func, ast.Attribute) and isinstance(y.func.value, ast.Name) and y.func.value.id != 'self' and False for y in ast.walk(f.node))
